@@ -121,6 +121,9 @@ def conclude(prop, a, cfg, results, twins, stability, kani, seed, t0):
         smt_ms += R.smt_ms
         tags = tags_for(R)
         tb = scan_trusted(R)
+        if getattr(R, "auto_stubs", None):
+            # stubs generated for this run only are not part of the committed ledger
+            tb = [t for t in tb if "auto-stub" not in t]
         trusted.extend(tb)
         trusted.extend("%s: %s" % (u, t) for t in R.assembled.trusted)
         for io in R.assembled.items:
@@ -173,7 +176,7 @@ def conclude(prop, a, cfg, results, twins, stability, kani, seed, t0):
             if hit:
                 known_hits.append((ob, hit[0][1]))
                 continue
-            violations.append({"obligation": ob, "unit": u, "q": q, "errors": errs,
+            violations.append({"obligation": ob, "unit": u, "q": q, "errors": errs, "auto_stubs": getattr(R, "auto_stubs", []),
                                "repo": ("%s:%d-%d" % (io.file, io.repo_lines[0], io.repo_lines[1])) if io else None,
                                "gen": R.gen_path})
     # vacuity guard
@@ -332,6 +335,8 @@ def write_replay(prop, v, cex):
     if v.get("gen"):
         L.append("verified text: %s (extracted from /repo's working tree on this run)" % v["gen"])
         L.append("re-run: cd /verif && ./check %s" % prop)
+    for st in v.get("auto_stubs", []) or []:
+        L.append("note: " + st)
     L.append("")
     for e in v["errors"]:
         L.append("---- verifier diagnostic (%s) ----" % e["kind"])
